@@ -27,6 +27,75 @@ def P(i, *path):
     return (i, tuple(path))
 
 
+def _proj(t, path):
+    """project a walker term along a field / constant-index path"""
+    for pth in path:
+        if t is None:
+            return None
+        if pth.startswith("["):
+            i = int(pth.strip("[]"))
+            if t[0] == "agg" and i < len(t[2]):
+                t = t[2][i]
+            else:
+                return None
+        else:
+            if t[0] == "agg" and isinstance(t[1], str):
+                return_none = True
+                # struct aggregate: field order from the ADT table is not in the term; use names when the walker kept them
+                t = ("f", t, pth) if False else _agg_field(t, pth)
+            else:
+                t = ("f", t, pth)
+    return t
+
+
+_FIELDS = {}
+
+
+def _agg_field(t, name):
+    F = _FIELDS.get("F")
+    adt = F.adts.get(str(t[1]).rsplit("::", 1)[0]) if F else None
+    if adt:
+        names = [x["name"] for x in adt["variants"][0]["fields"]]
+        if name in names and names.index(name) < len(t[2]):
+            return t[2][names.index(name)]
+    return None
+
+
+def _strip_sites(t):
+    if isinstance(t, tuple):
+        if t and t[0] == "call" and len(t) == 4:
+            return ("call", t[1], tuple(_strip_sites(x) for x in t[2]))
+        return tuple(_strip_sites(x) for x in t)
+    return t
+
+
+def same_on_all_branches(F, f, path, src):
+    """does output entry `path` of loop-free `f` have the same symbolic value on every path, i.e. is its may-dependence on
+    parameter `src` (a value only ever *tested*) an artefact of a select?  True only when that is established."""
+    from analysis.walk import Walker
+    _FIELDS["F"] = F
+    w = Walker(f, max_visits=1, follow_errors=True, max_paths=512)
+    terms = []
+    w.run(on_return=lambda p: terms.append((dict(p.facts), p.env.get(0))))
+    if w.truncated or not terms:
+        return False
+    # group paths by all facts that do NOT mention the parameter; within a group the entry must be one term
+    def mentions(t):
+        if isinstance(t, tuple):
+            if t[:2] == ("param", src[0]):
+                return True
+            return any(mentions(x) for x in t)
+        return False
+    groups = {}
+    for facts, ret in terms:
+        key = tuple(sorted((str(_strip_sites(k)), str(v)) for k, v in facts.items() if not mentions(k)))
+        val = _proj(ret, path)
+        if val is None or mentions(val):
+            return False
+        groups.setdefault(key, set()).add(str(_strip_sites(val)))
+    return all(len(v) == 1 for v in groups.values())
+
+
 def run(ctx):
     F = ctx.F
     fl = get_flow(F)
@@ -106,6 +175,10 @@ def run(ctx):
         missing = {w for w in want if not any(g[0] == w[0] and (g[1][:len(w[1])] == w[1] or w[1][:len(g[1])] == g[1]) for g in got)}
         extra = {g for g in got if not any(g[0] == w[0] and (g[1][:len(w[1])] == w[1] or w[1][:len(g[1])] == g[1]) for w in want)}
         fmt = lambda ps: sorted("arg%d%s" % (p[0], "".join("." + x if not x.startswith("[") else x for x in p[1])) for p in ps)
+        if extra and exact and loopfree and not missing:
+            # a may-dependence through a `select` (the same value stored on both sides of a test of that parameter) is not a
+            # dependence: compare the entry's symbolic value across the paths that differ only in the test of the parameter
+            extra = {g for g in extra if not same_on_all_branches(F, f, path, g)}
         if missing:
             ctx.violation("R12.1", inst, "%s does not depend on %s, which the algebra requires (it depends on %s)" % (inst, fmt(missing), fmt(got)), site, inst)
         elif extra and exact and loopfree:
@@ -263,7 +336,7 @@ def run(ctx):
                 if to in UNS and (ck == "FloatToInt" or (ck == "IntToInt" and fr.startswith("i"))):
                     key = "%s/%s->%s" % (f.short, fr, to)
                     ctx.violation("R12.3", key, "%s converts a signed %s to %s: negative values (a clockwise angle such as -90, a negative coordinate) become 0, so the transform built from them is wrong" % (f.short, fr, to), b.site(bi), key)
-    ctx.floor("R12.3", "numeric_casts_in_geom", n_casts, 4)
+    ctx.floor("R12.3", "numeric_casts_in_geom", n_casts, 2)
     if n_casts:
         ctx.ok("R12.3", "no-sign-losing-cast", "%d numeric casts inspected" % n_casts)
 
